@@ -141,16 +141,6 @@ func (r *readCommand) read(ctx context.Context, ltx lcontext.LContext,
 	}
 
 	defer vhook.At("limiter.exit", r.server, path)
-	defer func() {
-		vhook.At("limiter.relbegin", r.server, path)
-		select {
-		case <-limiter:
-			vhook.At("limiter.relend", r.server, path, 1)
-		default:
-			vhook.At("limiter.relend", r.server, path, 0)
-		}
-	}()
-
 	vhook.At("limiter.enter", r.server, path)
 	select {
 	case limiter <- struct{}{}:
@@ -170,6 +160,17 @@ func (r *readCommand) read(ctx context.Context, ltx lcontext.LContext,
 			return
 		}
 	}
+	// Release the slot only once it has been acquired: a read which gave up
+	// while waiting must not take the slot of another, still running, read.
+	defer func() {
+		vhook.At("limiter.relbegin", r.server, path)
+		select {
+		case <-limiter:
+			vhook.At("limiter.relend", r.server, path, 1)
+		default:
+			vhook.At("limiter.relend", r.server, path, 0)
+		}
+	}()
 
 	lines := r.server.lines
 	aggregate := r.server.aggregate
